@@ -42,12 +42,29 @@ pub fn clear_user(dict: Dictionary) -> Guarded<Dictionary> {
     })
 }
 
+/// An iterator over a mapping list that reveals nothing about its length (`size_hint` = (0, None)),
+/// like ids parsed lazily from the lines of a mapping file.
+struct Lazy(std::vec::IntoIter<u16>);
+impl Iterator for Lazy {
+    type Item = u16;
+    fn next(&mut self) -> Option<u16> {
+        self.0.next()
+    }
+}
+
+/// `map_connection_ids_from_iter`; how the two lists are handed over (as vectors, as lazy
+/// iterators of unknown length, or one of each) is a function of the lists themselves.
 pub fn map_ids(dict: Dictionary, lmap: &[u16], rmap: &[u16]) -> Guarded<Dictionary> {
     let l = lmap.to_vec();
     let r = rmap.to_vec();
+    let style = (l.iter().chain(r.iter()).map(|&x| u64::from(x)).sum::<u64>() + l.len() as u64) % 4;
     catch(|| {
-        dict.map_connection_ids_from_iter(l, r)
-            .map_err(|e| e.to_string())
+        match style {
+            0 => dict.map_connection_ids_from_iter(Lazy(l.into_iter()), Lazy(r.into_iter())),
+            1 => dict.map_connection_ids_from_iter(l, Lazy(r.into_iter())),
+            _ => dict.map_connection_ids_from_iter(l, r),
+        }
+        .map_err(|e| e.to_string())
     })
 }
 
